@@ -336,6 +336,94 @@ Section Skel.
     cbn [andb orb]. rewrite !andb_true_r. reflexivity.
   Qed.
 
+  (* ------------------------------------------------------------------------------------------------------------
+     Foerster tensors, initialize():  data = zeros;  for aa: for bb: if cond aa bb: data[tgt aa bb] = val aa bb          *)
+  Definition gs_body (cond : nat -> nat -> bool) (tgt : nat -> nat -> idx4) (val : nat -> nat -> R) (aa : nat) (U : @tens R) (bb : nat) : @tens R :=
+    if cond aa bb then tsetp U (tgt aa bb) (val aa bb) else U.
+  Definition gs_skel (n1 n2 : nat) cond tgt val (T : @tens R) : @tens R :=
+    fold_left (fun U aa => fold_left (gs_body cond tgt val aa) (seq 0 n2) U) (seq 0 n1) T.
+
+  Definition gs_done (P : nat -> nat -> bool) (K : @mat R) (T : @tens R) : @tens R := fun a b c d =>
+    if Nat.eqb a b && Nat.eqb c d && negb (Nat.eqb a c) && P a c then K a c else T a b c d.
+
+  Lemma gs_done_ext P Q K T : (forall x y, P x y = Q x y) -> forall a b c d, gs_done P K T a b c d = gs_done Q K T a b c d.
+  Proof. intros H a b c d. unfold gs_done. rewrite H. reflexivity. Qed.
+
+  Lemma gs_inner cond tgt val K T k :
+    (forall aa bb, cond aa bb = negb (Nat.eqb aa bb)) -> (forall aa bb, tgt aa bb = (aa, aa, bb, bb)) ->
+    (forall aa bb, val aa bb = K aa bb) ->
+    forall j U, (forall a b c d, U a b c d = gs_done (gdone k 0) K T a b c d) ->
+    forall a b c d, fold_left (gs_body cond tgt val k) (seq 0 j) U a b c d = gs_done (gdone k j) K T a b c d.
+  Proof.
+    intros Hc Ht Hv j U HU. induction j as [|j IH]; intros a b c d.
+    - cbn [seq fold_left]. apply HU.
+    - rewrite seq_S, fold_left_app. cbn [fold_left Nat.add].
+      set (V := fold_left (gs_body cond tgt val k) (seq 0 j) U) in *.
+      unfold gs_body. rewrite Hc, Ht, Hv.
+      assert (Hstep : forall x y, gdone k (S j) x y = gdone k j x y || (Nat.eqb x k && Nat.eqb y j)).
+      { intros x y. unfold gdone. destruct (Nat.ltb_spec x k), (Nat.ltb_spec y n), (Nat.eqb_spec x k), (Nat.ltb_spec y j), (Nat.ltb_spec y (S j)), (Nat.eqb_spec y j);
+          cbn [andb orb]; try reflexivity; lia. }
+      destruct (Nat.eqb_spec k j) as [<-|Hkj]; cbn [negb].
+      + rewrite IH. unfold gs_done. rewrite Hstep.
+        destruct (Nat.eqb_spec a b) as [<-|?]; cbn [andb]; try reflexivity.
+        destruct (Nat.eqb_spec c d) as [<-|?]; cbn [andb]; try reflexivity.
+        destruct (Nat.eqb_spec a c) as [<-|?]; cbn [andb negb]; try reflexivity.
+        destruct (Nat.eqb_spec a k), (Nat.eqb_spec c k); cbn [andb]; rewrite ?orb_false_r; try reflexivity. lia.
+      + unfold tsetp. destruct (ieqb (k, k, j, j) a b c d) eqn:E.
+        * apply ieqb_spec in E. destruct E as (-> & -> & -> & ->).
+          unfold gs_done. rewrite !Nat.eqb_refl.
+          replace (Nat.eqb k j) with false by (symmetry; apply Nat.eqb_neq; lia).
+          unfold gdone. rewrite !Nat.eqb_refl.
+          replace (Nat.ltb j (S j)) with true by (symmetry; apply Nat.ltb_lt; lia).
+          cbn [andb orb negb]. rewrite ?orb_true_r. reflexivity.
+        * apply ieqb_false in E. rewrite IH. unfold gs_done. rewrite Hstep.
+          destruct (Nat.eqb_spec a b) as [<-|?]; cbn [andb]; try reflexivity.
+          destruct (Nat.eqb_spec c d) as [<-|?]; cbn [andb]; try reflexivity.
+          destruct (Nat.eqb_spec a k), (Nat.eqb_spec c j); cbn [andb]; rewrite ?orb_false_r; try reflexivity. lia.
+  Qed.
+
+  Lemma gs_skel_is_model n1 n2 cond tgt val K :
+    n1 = n -> n2 = n ->
+    (forall aa bb, cond aa bb = negb (Nat.eqb aa bb)) -> (forall aa bb, tgt aa bb = (aa, aa, bb, bb)) ->
+    (forall aa bb, val aa bb = K aa bb) ->
+    forall a b c d, (a < n)%nat -> (c < n)%nat -> gs_skel n1 n2 cond tgt val (fun _ _ _ _ => 0) a b c d = rates_to_tensor K a b c d.
+  Proof.
+    intros -> -> Hc Ht Hv a b c d Ha Hcn. unfold gs_skel.
+    assert (Hpre : forall k, (k <= n)%nat -> forall a b c d,
+      fold_left (fun U aa => fold_left (gs_body cond tgt val aa) (seq 0 n) U) (seq 0 k) (fun _ _ _ _ => 0) a b c d
+      = gs_done (fun x y => Nat.ltb x k && Nat.ltb y n) K (fun _ _ _ _ => 0) a b c d).
+    { intros k. induction k as [|k IH]; intros Hk a' b' c' d'.
+      - cbn [seq fold_left]. unfold gs_done. cbn [Nat.ltb Nat.leb andb]. rewrite andb_false_r. reflexivity.
+      - rewrite seq_S, fold_left_app. cbn [fold_left Nat.add].
+        rewrite (gs_inner cond tgt val K (fun _ _ _ _ => 0) k Hc Ht Hv).
+        + apply gs_done_ext. intros x y. unfold gdone.
+          destruct (Nat.ltb_spec x k), (Nat.ltb_spec x (S k)), (Nat.eqb_spec x k), (Nat.ltb_spec y n); cbn [andb orb]; try reflexivity; lia.
+        + intros a2 b2 c2 d2. rewrite IH by lia. apply gs_done_ext. intros x y. unfold gdone.
+          replace (Nat.ltb y 0) with false by (symmetry; apply Nat.ltb_ge; lia). rewrite andb_false_r, orb_false_r. reflexivity. }
+    rewrite Hpre by lia. unfold gs_done, rates_to_tensor.
+    replace (Nat.ltb a n) with true by (symmetry; apply Nat.ltb_lt; lia).
+    replace (Nat.ltb c n) with true by (symmetry; apply Nat.ltb_lt; lia).
+    cbn [andb]. rewrite andb_true_r. reflexivity.
+  Qed.
+
+  (* updateStructure reads and writes elements with indices below the dimension only *)
+  Lemma update_structure_ext (T U : @tens R) :
+    (forall a b c d, (a < n)%nat -> (b < n)%nat -> (c < n)%nat -> (d < n)%nat -> T a b c d = U a b c d) ->
+    forall a b c d, (a < n)%nat -> (b < n)%nat -> (c < n)%nat -> (d < n)%nat ->
+    update_structure n half T a b c d = update_structure n half U a b c d.
+  Proof.
+    intros H a b c d Ha Hb Hc Hd.
+    assert (Hdep : forall x y z w, (x < n)%nat -> (y < n)%nat -> (z < n)%nat -> (w < n)%nat -> upd_depop n T x y z w = upd_depop n U x y z w).
+    { intros x y z w Hx Hy Hz Hw. unfold upd_depop.
+      destruct (Nat.eqb x y && Nat.eqb z w && Nat.eqb x z).
+      - rewrite (sum_ext n (fun i => T i i x x) (fun i => U i i x x)) by (intros; apply H; assumption). rewrite H by assumption. reflexivity.
+      - apply H; assumption. }
+    unfold update_structure, upd_deph.
+    destruct (Nat.eqb a c && Nat.eqb b d && negb (Nat.eqb a b)).
+    - rewrite !Hdep by assumption. reflexivity.
+    - apply Hdep; assumption.
+  Qed.
+
   (* the assembly body depends on Lambda and Lambda^dagger only through their entries *)
   Lemma loopit_m_ext (K Kd L L' Ld Ld' : @mat R) : (forall x y, L x y = L' x y) -> (forall x y, Ld x y = Ld' x y) ->
     forall a b c d, loopit_m n K Kd L Ld a b c d = loopit_m n K Kd L' Ld' a b c d.
